@@ -87,7 +87,6 @@ Section Step.
   Hypothesis Hblk : is_some (ce_record (pl_dr r)) = true ->
     exists blk, Master.ms_get_block img (rs_bl x) = Some blk /\ zlen blk = BS /\
                 firstn (Z.to_nat (pl_celen r)) (skipn (Z.to_nat (rs_off x)) blk) = bc.
-  Hypothesis Hxa : prr_xa (sysuse (prr_pad (mrr_drec v dt x))) (zlen (rs_nm x)) = XaNo.
 
   Local Notation R := (prr_pad (mrr_drec v dt x)).
   Local Notation FD := (prr_fix_E x (pl_dr r)).
@@ -126,6 +125,18 @@ Section Step.
       cbn [ce_len]. symmetry. exact Z3.
   Qed.
 
+  (* the area opens with a SUSP signature *)
+  Lemma prr_step_sig : prr_has_rr (sysuse R) = true.
+  Proof.
+    destruct prr_step_tail as [Esu _]. rewrite Esu.
+    destruct (mrr_rec_readable v dt x r Hpl Hmode Hlinks Hbl Hoff Hcel) as [Rd _].
+    destruct prr_step_complete as (_ & _ & _ & _ & _ & _ & Hpx & _).
+    assert (Hne : entries_list (pl_dr r) <> []).
+    { apply prr_entries_nonempty. destruct (ce_record (pl_dr r)) eqn:E; [left; discriminate|right; apply Hpx; reflexivity]. }
+    pose proof Ed as Ed'. destruct (entries_list (pl_dr r)) as [|e es]; [congruence|]. cbn [map] in Ed', Rd.
+    exact (prr_first_sig v _ _ bd _ (Forall_inv Rd) Ed').
+  Qed.
+
   (* the RockRidge object and the block table *)
   Lemma prr_rock_ok d cur blocks blk blocks1 :
     prr_skip_for d cur R = POk (rs_first x, 0) ->
@@ -141,10 +152,7 @@ Section Step.
     unfold prr_rock. rewrite Hskip, Esu.
     assert (Hne : entries_list (pl_dr r) <> []).
     { apply prr_entries_nonempty. destruct (ce_record (pl_dr r)) eqn:E; [left; discriminate|right; apply Hpx; reflexivity]. }
-    assert (Hsig : prr_has_rr (bd ++ repeat 0 (Z.to_nat (zlen bd mod 2))) = true).
-    { pose proof Ed as Ed'. destruct (entries_list (pl_dr r)) as [|e es]; [congruence|]. cbn [map] in Ed', Rd.
-      exact (prr_first_sig v _ _ bd _ (Forall_inv Rd) Ed'). }
-    rewrite Hsig. cbn [negb]. clear Rd.
+    rewrite <- Esu, prr_step_sig, Esu. cbn [negb]. clear Rd.
     destruct (prr_rec_parse v dt x r Hv Hpl Hmode Hlinks Hbl Hoff Hcel Hspce bd bc _ Ed Ec Hpad) as (v0 & P1 & P2 & P3).
     rewrite P1. unfold prr_spec_rrd. rewrite Hpl.
     destruct (ce_record (pl_dr r)) as [c|] eqn:Ece; cbn [prr_fix_E ce_record is_some]; rewrite Ece.
@@ -188,7 +196,8 @@ Section Step.
   Proof.
     intros Hskip Hno Hyes Hver Hlt. destruct prr_step_bytes as (B1 & B2 & B3).
     destruct prr_step_complete as (A1 & A2 & A3 & A4 & A5 & A6 & _).
-    unfold prr_record. rewrite B1, B2, B3, Hxa, (prr_rock_ok d (w_cur st) (w_blocks st) blk blocks1 Hskip Hno Hyes).
+    unfold prr_record, prr_record_gen, prr_xa_probe. rewrite B1, B2, B3, prr_step_sig. cbn [andb].
+    rewrite (prr_rock_ok d (w_cur st) (w_blocks st) blk blocks1 Hskip Hno Hyes).
     rewrite prr_spec_rrd_eq.
     assert (Hrel : prr_reloc (mk_rrd FD (if is_some (ce_record (pl_dr r)) then FC else empty_entries)
                                      (prr_ver_of v) 0 blk) = false).
